@@ -297,6 +297,9 @@ func (s *session) apply(step tf.M) {
 	k := s.w.App.OracleKeeper
 	switch tf.Str(step, "e", "") {
 	case "Request":
+		if k.GetRequestCount(s.r.Ctx) >= 8 {
+			return // the trace specification's request bound (MaxReq = 10) must never be what stops a request
+		}
 		ask, min := tf.Int(step, "ask", 1), tf.Int(step, "min", 1)
 		ok := tf.Bool(step, "ok", true)
 		// three kinds of oracle script: returns data (SUCCESS), returns nothing (FAILURE), and - every third
